@@ -13,8 +13,8 @@ Section Post.
 
   (* reference: posts on the value alone, then ensures on the original arguments plus result *)
   Definition run_posts (n : nat) (c : contracts) (a : pargs) (k : pkwargs) (v : value) (w : world) : res unit :=
-    match run_vals n (c_posts c) [v] [] w with
-    | Done (inl _) w1 => run_vals n (c_ensures c) a (kwargs_with k "result" v) w1
+    match run_vals n (c_posts c) [v] [] None w with
+    | Done (inl _) w1 => run_vals n (c_ensures c) a (kwargs_with k "result" v) None w1
     | r => r
     end.
 
@@ -47,14 +47,14 @@ Section Post.
       = Done (inl (CNormal, ens_env e)) w1.
     Proof.
       unfold run_posts. intro Hp.
-      destruct (run_vals n (c_posts c) [l_result e] [] w) as [[[]|x] w2|? ? w2|] eqn:E1; try discriminate.
-      pose proof (@loop_accept ftab env value set_validator l_validator (fun e => [l_result e]) (fun _ => [])
-                  (fun _ _ => eq_refl) (fun _ _ => eq_refl) (fun _ _ => eq_refl) n (c_posts c) e w w2 E1) as H1.
+      destruct (run_vals n (c_posts c) [l_result e] [] None w) as [[[]|x] w2|? ? w2|] eqn:E1; try discriminate.
+      pose proof (@loop_accept ftab env value set_validator l_validator (fun e => [l_result e]) (fun _ => []) (fun _ => None)
+                  (fun _ _ => eq_refl) (fun _ _ => eq_refl) (fun _ _ => eq_refl) (fun _ _ => eq_refl) n (c_posts c) e w w2 E1) as H1.
       erewrite seq_normal by (unfold s_for; exact H1).
       destruct (res_posts e) as (Hr & Ha & Hk).
       unfold s_for.
-      apply (@loop_accept ftab env value set_validator l_validator l_args (fun e => kwargs_with (l_kwargs e) "result" (l_result e))
-                  (fun _ _ => eq_refl) (fun _ _ => eq_refl) (fun _ _ => eq_refl) n (c_ensures c) (posts_env e) w2 w1).
+      apply (@loop_accept ftab env value set_validator l_validator l_args (fun e => kwargs_with (l_kwargs e) "result" (l_result e)) (fun _ => None)
+                  (fun _ _ => eq_refl) (fun _ _ => eq_refl) (fun _ _ => eq_refl) (fun _ _ => eq_refl) n (c_ensures c) (posts_env e) w2 w1).
       fold (posts_env e). rewrite Ha, Hk, Hr. exact Hp.
     Qed.
     Lemma loops_reject n e w x w1 :
@@ -64,17 +64,17 @@ Section Post.
       = Done (inr x) w1.
     Proof.
       unfold run_posts. intro Hp.
-      destruct (run_vals n (c_posts c) [l_result e] [] w) as [[[]|y] w2|? ? w2|] eqn:E1; try discriminate.
-      - pose proof (@loop_accept ftab env value set_validator l_validator (fun e => [l_result e]) (fun _ => [])
-                  (fun _ _ => eq_refl) (fun _ _ => eq_refl) (fun _ _ => eq_refl) n (c_posts c) e w w2 E1) as H1.
+      destruct (run_vals n (c_posts c) [l_result e] [] None w) as [[[]|y] w2|? ? w2|] eqn:E1; try discriminate.
+      - pose proof (@loop_accept ftab env value set_validator l_validator (fun e => [l_result e]) (fun _ => []) (fun _ => None)
+                  (fun _ _ => eq_refl) (fun _ _ => eq_refl) (fun _ _ => eq_refl) (fun _ _ => eq_refl) n (c_posts c) e w w2 E1) as H1.
         erewrite seq_normal by (unfold s_for; exact H1).
         destruct (res_posts e) as (Hr & Ha & Hk). unfold s_for.
-        apply (@loop_reject ftab env value set_validator l_validator l_args (fun e => kwargs_with (l_kwargs e) "result" (l_result e))
-                  (fun _ _ => eq_refl) (fun _ _ => eq_refl) (fun _ _ => eq_refl) n (c_ensures c) (posts_env e) w2 x w1).
+        apply (@loop_reject ftab env value set_validator l_validator l_args (fun e => kwargs_with (l_kwargs e) "result" (l_result e)) (fun _ => None)
+                  (fun _ _ => eq_refl) (fun _ _ => eq_refl) (fun _ _ => eq_refl) (fun _ _ => eq_refl) n (c_ensures c) (posts_env e) w2 x w1).
         fold (posts_env e). rewrite Ha, Hk, Hr. exact Hp.
       - inversion Hp; subst. apply seq_raise. unfold s_for.
-        apply (@loop_reject ftab env value set_validator l_validator (fun e => [l_result e]) (fun _ => [])
-                  (fun _ _ => eq_refl) (fun _ _ => eq_refl) (fun _ _ => eq_refl) n (c_posts c) e w x w1 E1).
+        apply (@loop_reject ftab env value set_validator l_validator (fun e => [l_result e]) (fun _ => []) (fun _ => None)
+                  (fun _ _ => eq_refl) (fun _ _ => eq_refl) (fun _ _ => eq_refl) (fun _ _ => eq_refl) n (c_posts c) e w x w1 E1).
     Qed.
 
     Theorem post_sync_accept n e w w1 :
@@ -130,14 +130,14 @@ Section Post.
       = Done (inl (CNormal, aens_env e)) w1.
     Proof.
       unfold run_posts. intro Hp.
-      destruct (run_vals n (c_posts c) [l_result e] [] w) as [[[]|x] w2|? ? w2|] eqn:E1; try discriminate.
-      pose proof (@loop_accept ftab env value set_validator l_validator (fun e => [l_result e]) (fun _ => [])
-                  (fun _ _ => eq_refl) (fun _ _ => eq_refl) (fun _ _ => eq_refl) n (c_posts c) e w w2 E1) as H1.
+      destruct (run_vals n (c_posts c) [l_result e] [] None w) as [[[]|x] w2|? ? w2|] eqn:E1; try discriminate.
+      pose proof (@loop_accept ftab env value set_validator l_validator (fun e => [l_result e]) (fun _ => []) (fun _ => None)
+                  (fun _ _ => eq_refl) (fun _ _ => eq_refl) (fun _ _ => eq_refl) (fun _ _ => eq_refl) n (c_posts c) e w w2 E1) as H1.
       erewrite seq_normal by (unfold s_for; exact H1).
       destruct (ares_posts e) as (Hr & Ha & Hk).
       unfold s_for.
-      apply (@loop_accept ftab env value set_validator l_validator l_args (fun e => kwargs_with (l_kwargs e) "result" (l_result e))
-                  (fun _ _ => eq_refl) (fun _ _ => eq_refl) (fun _ _ => eq_refl) n (c_ensures c) (aposts_env e) w2 w1).
+      apply (@loop_accept ftab env value set_validator l_validator l_args (fun e => kwargs_with (l_kwargs e) "result" (l_result e)) (fun _ => None)
+                  (fun _ _ => eq_refl) (fun _ _ => eq_refl) (fun _ _ => eq_refl) (fun _ _ => eq_refl) n (c_ensures c) (aposts_env e) w2 w1).
       fold (aposts_env e). rewrite Ha, Hk, Hr. exact Hp.
     Qed.
     Lemma aloops_reject n e w x w1 :
@@ -147,17 +147,17 @@ Section Post.
       = Done (inr x) w1.
     Proof.
       unfold run_posts. intro Hp.
-      destruct (run_vals n (c_posts c) [l_result e] [] w) as [[[]|y] w2|? ? w2|] eqn:E1; try discriminate.
-      - pose proof (@loop_accept ftab env value set_validator l_validator (fun e => [l_result e]) (fun _ => [])
-                  (fun _ _ => eq_refl) (fun _ _ => eq_refl) (fun _ _ => eq_refl) n (c_posts c) e w w2 E1) as H1.
+      destruct (run_vals n (c_posts c) [l_result e] [] None w) as [[[]|y] w2|? ? w2|] eqn:E1; try discriminate.
+      - pose proof (@loop_accept ftab env value set_validator l_validator (fun e => [l_result e]) (fun _ => []) (fun _ => None)
+                  (fun _ _ => eq_refl) (fun _ _ => eq_refl) (fun _ _ => eq_refl) (fun _ _ => eq_refl) n (c_posts c) e w w2 E1) as H1.
         erewrite seq_normal by (unfold s_for; exact H1).
         destruct (ares_posts e) as (Hr & Ha & Hk). unfold s_for.
-        apply (@loop_reject ftab env value set_validator l_validator l_args (fun e => kwargs_with (l_kwargs e) "result" (l_result e))
-                  (fun _ _ => eq_refl) (fun _ _ => eq_refl) (fun _ _ => eq_refl) n (c_ensures c) (aposts_env e) w2 x w1).
+        apply (@loop_reject ftab env value set_validator l_validator l_args (fun e => kwargs_with (l_kwargs e) "result" (l_result e)) (fun _ => None)
+                  (fun _ _ => eq_refl) (fun _ _ => eq_refl) (fun _ _ => eq_refl) (fun _ _ => eq_refl) n (c_ensures c) (aposts_env e) w2 x w1).
         fold (aposts_env e). rewrite Ha, Hk, Hr. exact Hp.
       - inversion Hp; subst. apply seq_raise. unfold s_for.
-        apply (@loop_reject ftab env value set_validator l_validator (fun e => [l_result e]) (fun _ => [])
-                  (fun _ _ => eq_refl) (fun _ _ => eq_refl) (fun _ _ => eq_refl) n (c_posts c) e w x w1 E1).
+        apply (@loop_reject ftab env value set_validator l_validator (fun e => [l_result e]) (fun _ => []) (fun _ => None)
+                  (fun _ _ => eq_refl) (fun _ _ => eq_refl) (fun _ _ => eq_refl) (fun _ _ => eq_refl) n (c_posts c) e w x w1 E1).
     Qed.
 
     Theorem post_async_accept n e w w1 :
@@ -212,14 +212,14 @@ Section Post.
       = Done (inl (CNormal, iens_env e)) w1.
     Proof.
       unfold run_posts. intro Hp.
-      destruct (run_vals n (c_posts c) [l_result e] [] w) as [[[]|x] w2|? ? w2|] eqn:E1; try discriminate.
-      pose proof (@loop_accept ftab env value set_validator l_validator (fun e => [l_result e]) (fun _ => [])
-                  (fun _ _ => eq_refl) (fun _ _ => eq_refl) (fun _ _ => eq_refl) n (c_posts c) e w w2 E1) as H1.
+      destruct (run_vals n (c_posts c) [l_result e] [] None w) as [[[]|x] w2|? ? w2|] eqn:E1; try discriminate.
+      pose proof (@loop_accept ftab env value set_validator l_validator (fun e => [l_result e]) (fun _ => []) (fun _ => None)
+                  (fun _ _ => eq_refl) (fun _ _ => eq_refl) (fun _ _ => eq_refl) (fun _ _ => eq_refl) n (c_posts c) e w w2 E1) as H1.
       erewrite seq_normal by (unfold s_for; exact H1).
       destruct (ires_posts e) as (Hr & Ha & Hk).
       unfold s_for.
-      apply (@loop_accept ftab env value set_validator l_validator l_args (fun e => kwargs_with (l_kwargs e) "result" (l_result e))
-                  (fun _ _ => eq_refl) (fun _ _ => eq_refl) (fun _ _ => eq_refl) n (c_ensures c) (iposts_env e) w2 w1).
+      apply (@loop_accept ftab env value set_validator l_validator l_args (fun e => kwargs_with (l_kwargs e) "result" (l_result e)) (fun _ => None)
+                  (fun _ _ => eq_refl) (fun _ _ => eq_refl) (fun _ _ => eq_refl) (fun _ _ => eq_refl) n (c_ensures c) (iposts_env e) w2 w1).
       fold (iposts_env e). rewrite Ha, Hk, Hr. exact Hp.
     Qed.
     Lemma iloops_reject n e w x w1 :
@@ -229,17 +229,17 @@ Section Post.
       = Done (inr x) w1.
     Proof.
       unfold run_posts. intro Hp.
-      destruct (run_vals n (c_posts c) [l_result e] [] w) as [[[]|y] w2|? ? w2|] eqn:E1; try discriminate.
-      - pose proof (@loop_accept ftab env value set_validator l_validator (fun e => [l_result e]) (fun _ => [])
-                  (fun _ _ => eq_refl) (fun _ _ => eq_refl) (fun _ _ => eq_refl) n (c_posts c) e w w2 E1) as H1.
+      destruct (run_vals n (c_posts c) [l_result e] [] None w) as [[[]|y] w2|? ? w2|] eqn:E1; try discriminate.
+      - pose proof (@loop_accept ftab env value set_validator l_validator (fun e => [l_result e]) (fun _ => []) (fun _ => None)
+                  (fun _ _ => eq_refl) (fun _ _ => eq_refl) (fun _ _ => eq_refl) (fun _ _ => eq_refl) n (c_posts c) e w w2 E1) as H1.
         erewrite seq_normal by (unfold s_for; exact H1).
         destruct (ires_posts e) as (Hr & Ha & Hk). unfold s_for.
-        apply (@loop_reject ftab env value set_validator l_validator l_args (fun e => kwargs_with (l_kwargs e) "result" (l_result e))
-                  (fun _ _ => eq_refl) (fun _ _ => eq_refl) (fun _ _ => eq_refl) n (c_ensures c) (iposts_env e) w2 x w1).
+        apply (@loop_reject ftab env value set_validator l_validator l_args (fun e => kwargs_with (l_kwargs e) "result" (l_result e)) (fun _ => None)
+                  (fun _ _ => eq_refl) (fun _ _ => eq_refl) (fun _ _ => eq_refl) (fun _ _ => eq_refl) n (c_ensures c) (iposts_env e) w2 x w1).
         fold (iposts_env e). rewrite Ha, Hk, Hr. exact Hp.
       - inversion Hp; subst. apply seq_raise. unfold s_for.
-        apply (@loop_reject ftab env value set_validator l_validator (fun e => [l_result e]) (fun _ => [])
-                  (fun _ _ => eq_refl) (fun _ _ => eq_refl) (fun _ _ => eq_refl) n (c_posts c) e w x w1 E1).
+        apply (@loop_reject ftab env value set_validator l_validator (fun e => [l_result e]) (fun _ => []) (fun _ => None)
+                  (fun _ _ => eq_refl) (fun _ _ => eq_refl) (fun _ _ => eq_refl) (fun _ _ => eq_refl) n (c_posts c) e w x w1 E1).
     Qed.
 
     (* one iteration of the wrapper loop, after `result = next(generator)` delivered l_result e *)
